@@ -97,6 +97,25 @@ def view_family():
                 idx += 1
 
 
+def scaled_family():
+    """LPs with constraint rows whose coefficients are large (|a| up to 5e4, right-hand sides up to 1e5) next to O(1)
+    objectives, in every sense and with dominant entries of both signs."""
+    rows = [(50000, 1), (-50000, 1), (1, -50000), (20000, 30000), (-30000, -20000), (50000, 0)]
+    idx = 0
+    bm = (("lb", 0), ("ub", 10))
+    for row in rows:
+        for r in (100000, -100000, 0, 250000):
+            for s in SENSES:
+                for a, sense in (((1, 1), "min"), ((1, 1), "max"), ((-1, 2), "min"), ((2, -1), "max")):
+                    lab, e = _spell(2, row, 0, idx)
+                    cons = [("cmp", s, e, c(r))]
+                    if idx % 2:
+                        cons.append(("cmp", "<=", add(XA, XB), c(15)))
+                    obj = add(mul(c(a[0]), XA), mul(c(a[1]), XB))
+                    yield 20_000_000 + idx, ("scaled", lab, row, r, s, sense), PR.prob(sense, obj, cons, (("x9", bm), ("x10", bm))), METHODS[idx % len(METHODS)]
+                    idx += 1
+
+
 def reference_lp(pr):
     """Matrix form assembled independently from the exact polynomials of the recipes."""
     names = PR.problem_var_names(pr)
